@@ -94,13 +94,15 @@ def monitor(script, c):
                 if r[5] == "0":
                     hits.append({"what": "out-of-place call modified its input buffer", "signature": "input-modified:" + r[1], "detail": " ".join(r[:3])}); return hits
                 if aead_cryptex and r[1] in ("protect", "unprotect") and m > 0 and r[2] == "1d" and base[2] != "1d":
-                    continue     # the documented exception: cryptex with CSRCs under AES-GCM is refused out of place (cryptex_err)
+                    # the documented exception: cryptex with CSRCs under AES-GCM is refused out of place (cryptex_err).  From here on
+                    # the four sessions are no longer in the same index state (three of them missed a packet): stop judging
+                    return hits
                 if both and r[1] in ("protect", "unprotect") and (r[2] != base[2] or r[3] != base[3] or (r[2] == "0" and r[4] != base[4])):
                     # cryptex + RFC 6904 in one policy: the 6904 walk runs over the not yet copied destination
                     if not any(h["signature"] == "cryptex-with-6904:" + r[1] for h in hits):
                         hits.append({"what": "policy with cryptex and RFC 6904 encryption together: out-of-place result differs from in-place / depends on the destination's previous content",
                                      "signature": "cryptex-with-6904:" + r[1], "detail": f"line {int(t[2+m],16)} vs {int(t[2],16)}"})
-                    continue
+                    return hits      # the sessions have diverged (known finding): later groups are no longer comparable
                 if r[2] != base[2] or r[3] != base[3]:
                     hits.append({"what": "status or output length differs between in-place and out-of-place processing",
                                  "signature": "alias-status-differs:" + r[1], "detail": f"mode 0: {base[2]} {base[3]}  mode {m}: {r[2]} {r[3]}"}); return hits
